@@ -162,6 +162,7 @@ ViewOK(d, v, utf8) ==
 (*   "struct-offset" struct children only need `length` slots                *)
 (*   "ree-cover"     the last run end need not reach offset+length           *)
 (*   "union-ids"     union type ids / dense offsets are not looked at        *)
+(*   "union-kid-types" union children need not have the declared types       *)
 RECURSIVE WF(_, _)
 
 KidsWellFormed(d, rx) == \A i \in 1..Len(d.kids) : WF(d.kids[i], rx)
@@ -237,7 +238,7 @@ WFFsl(d, rx) ==
 WFStruct(d, rx) ==
   /\ NBufs(d, 0) /\ NullsOK(d, TRUE) /\ KidTypesOK(d)
   /\ \A i \in 1..Len(d.kids) : d.kids[i].len >= (IF "struct-offset" \in rx THEN d.len ELSE End(d))
-  /\ End(d) < Huge \/ Len(d.kids) = 0
+  /\ "struct-offset" \in rx \/ End(d) < Huge \/ Len(d.kids) = 0
   /\ KidsWellFormed(d, rx)
 
 (* "Dictionary-encoded Layout": integer indices into the dictionary; an      *)
@@ -279,7 +280,8 @@ WFUnion(d, rx) ==
   LET dense == d.t.mode = "dense" IN
   /\ ~d.nulls.present /\ d.nulls.nc = 0
   /\ NBufs(d, IF dense THEN 2 ELSE 1)
-  /\ KidTypesOK(d) /\ Len(d.kids) = Len(d.t.ids)
+  /\ "union-kid-types" \in rx \/ KidTypesOK(d)
+  /\ Len(d.kids) = Len(d.t.ids)
   /\ Enough(d.bufs[1].nbytes, End(d))
   /\ Covers(d.bufs[1], d.offset, d.len)
   /\ "union-ids" \notin rx => \A i \in 0..(d.len - 1) : IdDeclared(d.t.ids, At(d.bufs[1], d.offset + i))
